@@ -64,6 +64,7 @@ static int tb_account(int s, int rc, const snap_t *sn, const char *what) {
 static int last_send_rc;
 static int adv_drains;          /* profiles with batching: the loop is drained before the clock moves, so that 'accumulated when the timeout expires' is well defined */
 static void drain(void);
+static int touch_ctr[2], child_dead[2];
 static int inj_at_entry, nmsg_at_entry;
 /* a pipe write was refused during this call (mailbox full): whatever was sent during the call may have vanished for one recipient */
 static void inj_relax(void) {
@@ -163,7 +164,7 @@ static void do_api(op_t op) {
                 if (m->st == S_RUNNING) {
                     int held = m->batch_size > 0 || m->batch_tmo > 0 || m->ever_batched;
                     for (int k = 0; k < NPAT; k++) if (m->sub[k].present && m->sub[k].prio == PR_LOW) held = 1;
-                    if (!held && ON(R_PS)) for (int k = 0; k < m->nmb; k++) if (!m->mb[k].optional && m->mb[k].kind == 0 && m->mb[k].msg < nmsg_stop_entry && !owed_excused(m->mb[k].msg))   /* sent before this call */
+                    if (!held && ON(R_PS)) for (int k = 0; k < m->nmb; k++) if (!m->mb[k].optional && m->mb[k].kind == 0 && m->mb[k].msg < nmsg_stop_entry && !owed_excused(i, k))   /* sent before this call */
                         vfail("PS.owed", MSG[m->mb[k].msg].sys ? "PS.owed|sys" : "PS.owed", "the loop stopped but message #%d (topic %s) owed to RUNNING module %s was never handed over", m->mb[k].msg,
                               MSG[m->mb[k].msg].topic < NTOPIC ? TOPIC[MSG[m->mb[k].msg].topic] : "-", m->name);
                     for (int k = m->nmb - 1; k >= 0; k--) if (m->mb[k].optional) mb_remove(i, k);
@@ -400,6 +401,13 @@ static void do_api(op_t op) {
     case O_READY: { char c = 'x'; if (__real_write(UFD[op.a].wr, &c, 1) == 1) UFD[op.a].bytes++; break; }
     case O_ADVANCE: if (adv_drains && api_depth == 1) { api_depth--; drain(); api_depth++; } shim_advance(ADV[op.a]); mt_advance(); break;
     case O_INJECT: if (op.a == INJ_CTL_DEL) shim_inject_ctl_del = 1; else if (op.a == INJ_WRITE_EAGAIN) shim_inject_write_eagain = 1 + op.b; else shim_inject_epoll_errno = op.a == INJ_EPOLL_EINTR ? EINTR : EBADF; break;
+    case O_RAISE: case O_TOUCH: case O_ENDCHILD: {      /* environment: a signal is raised / a file appears in a watched directory / a watched child exits */
+        int kind = op.c == O_RAISE ? K_SGN : op.c == O_TOUCH ? K_PATH : K_PID;
+        if (op.c == O_RAISE) raise(SIGS[op.a]);
+        else if (op.c == O_TOUCH) { char f[96]; snprintf(f, sizeof f, "%s/f%d", PATHS[op.a], touch_ctr[op.a]++); int fd = open(f, O_CREAT | O_WRONLY, 0600); if (fd >= 0) __real_close(fd); }
+        else { if (CHILD[op.a] > 0) { kill(CHILD[op.a], SIGKILL); child_dead[op.a] = 1; siginfo_t si; waitid(P_PID, CHILD[op.a], &si, WEXITED | WNOWAIT); } }
+        for (int t = 0; t < NM; t++) for (int i = 0; i < MAXSRC; i++) if (MD[t].src[i].present && MD[t].src[i].kind == kind && MD[t].src[i].key == op.a && MD[t].st == S_RUNNING) MD[t].src[i].fired++;
+        break; }
     case O_RELEASE: { int r = retained[op.a]; for (int i = op.a; i < nret - 1; i++) retained[i] = retained[i + 1]; nret--; EV[r].refs--; m_mem_unref((void *)EV[r].p); break; }
     default: vfail("INTERNAL", "INTERNAL", "unknown op %d", op.c);
     }
